@@ -127,6 +127,19 @@ CLAIMED = {
         "contract-based deductive verification of the composition over uninterpreted linear-algebra terms; bounded numeric check of the primitives and of detailed balance",
         "DESIGN.md §3 C06",
     ),
+    "C19": (
+        "other",
+        "Proved: the counting lemma by induction (dropping all-zero columns changes no per-chain count of a code c != 0; base and step "
+        "discharged by z3 over symbolic code arrays), get_error_log wiring (mask over chains, masked columns, POSTERIOR filter, empty Option, "
+        "kernel class by identifier), _make_error_summary for five code-set shapes (with / without code 0, single, only zero, empty: entries "
+        "exactly for the non-zero codes with the kernel's message, total and posterior per-chain counts), sample_info = stored shape. "
+        "pandas (_error_df), ArviZ conversion and pickle are outside the verifier's reach: exhaustive small error patterns and round trips are "
+        "BOUNDED, hence 'other'.",
+        "numpy array operations are uninterpreted with the stated contracts (mask = any over chains, E[:, mask] order-preserving filter, "
+        "sum(==c, axis=1) = per-row count); induction schema; pandas / arviz / pickle trusted and exercised natively only.",
+        "contract-based deductive verification (own VC generator, induction lemma over array contracts) + bounded exhaustive enumeration for the pandas/ArviZ/pickle clauses",
+        "DESIGN.md §3 C19",
+    ),
 }
 
 NOT_APPLICABLE = {
